@@ -90,7 +90,7 @@ _BUILTINS = {"len": len, "chr": chr, "ord": ord, "bytes": bytes, "bytearray": by
              "frozenset": frozenset, "set": set, "tuple": tuple, "list": list, "dict": dict, "str": str, "int": int,
              "min": min, "max": max, "sorted": sorted, "abs": abs, "bool": bool, "enumerate": enumerate, "zip": zip,
              "reversed": reversed, "divmod": divmod, "hex": hex, "isinstance": isinstance, "repr": repr, "sum": sum,
-             "any": any, "all": all, "float": float, "iter": iter, "next": next, "type": type, "filter": filter}
+             "any": any, "all": all, "float": float, "iter": iter, "next": next, "type": type, "filter": filter, "memoryview": memoryview}
 _TYPE_NAMES = {"bytes": bytes, "str": str, "int": int, "list": list, "tuple": tuple, "float": float, "bytearray": bytearray,
                "dict": dict, "set": set}
 _PURE_METHODS = {"startswith", "endswith", "replace", "strip", "lstrip", "rstrip", "find", "rfind", "index", "count", "join",
@@ -136,6 +136,7 @@ _OBJECT_METHODS = {re.Pattern: {"sub", "subn", "match", "search", "fullmatch", "
                    struct.Struct: {"pack", "unpack", "unpack_from"},
                    textwrap.TextWrapper: {"wrap", "fill"},
                    io.BytesIO: {"write", "getvalue", "tell"},
+                   memoryview: {"tobytes", "cast", "tolist", "hex"},
                    list: {"append", "extend"},            # local work-lists of the evaluated block (e.g. `parts.append` handed on as a write sink)
                    bytearray: {"append", "extend"},
                    collections.deque: {"append", "appendleft", "pop", "popleft", "extend", "clear", "copy", "index", "count"}}
@@ -521,6 +522,47 @@ class FollowModule(dict):
         return self[name] if name in self else default
 
 
+class _Scope(dict):
+    """Environment of one interpreted method call: a private copy for locals, while every ``self.<attr>`` entry is read from and written
+    to the shared environment of the evaluated object - so a helper called from a helper sees and leaves the same instance state."""
+
+    def __init__(self, shared):
+        super().__init__(shared)
+        self._shared = shared
+
+    @staticmethod
+    def _is_attr(k):
+        return isinstance(k, str) and k.startswith("self.")
+
+    def __getitem__(self, k):
+        if self._is_attr(k):
+            return self._shared[k]
+        return dict.__getitem__(self, k)
+
+    def __contains__(self, k):
+        return (k in self._shared) if self._is_attr(k) else dict.__contains__(self, k)
+
+    def get(self, k, default=None):
+        if self._is_attr(k):
+            return self._shared.get(k, default)
+        return dict.get(self, k, default)
+
+    def __setitem__(self, k, v):
+        if self._is_attr(k):
+            self._shared[k] = v
+        dict.__setitem__(self, k, v)
+
+    def pop(self, k, *default):
+        if self._is_attr(k):
+            self._shared.pop(k, None)
+        return dict.pop(self, k, *default)
+
+    def __delitem__(self, k):
+        if self._is_attr(k):
+            self._shared.pop(k, None)
+        dict.__delitem__(self, k)
+
+
 def bind_methods(env: Dict[str, object], classes, funcs=None, skip: Iterable[str] = (), only_missing: bool = True) -> Dict[str, object]:
     """Bind ``self.<method>`` of the given ClassDef nodes (bases first, most derived last) in the live environment ``env`` as
     callables that interpret the method body: locals are private to the call, ``self.*`` entries are shared (written back), so an
@@ -537,7 +579,7 @@ def bind_methods(env: Dict[str, object], classes, funcs=None, skip: Iterable[str
             if not gen_flag:
                 gen_flag.append(any(isinstance(n, (ast.Yield, ast.YieldFrom)) for n in walk_local(fn)))
             is_gen = gen_flag[0]
-            local = dict(env)
+            local = _Scope(env)        # locals are private; `self.*` entries live in the one shared environment (also across nested helper calls)
             vals = list(args)
             names = params[:len(vals)]
             for k, v in kw.items():
@@ -554,12 +596,6 @@ def bind_methods(env: Dict[str, object], classes, funcs=None, skip: Iterable[str
                     local[pn] = peval(defaults[di], dict(env), funcs)
             local.update(zip(names, vals))
             r = eval_block(fn.body, local, funcs=funcs)
-            for k in list(local):
-                if k.startswith("self.") or k.startswith("self"):
-                    if k.startswith("self."):
-                        env[k] = local[k]
-            for k in [k for k in env if k.startswith("self.") and k not in local]:
-                del env[k]              # `del self.x` inside the helper
             if r.raised:
                 raise Raised(RuntimeError(r.raised))
             return list(r.out) if is_gen else r.value
